@@ -253,6 +253,111 @@ def check_dimensions(ctx, db):
     ctx.check('modulo((p0 + 3.14159' in t and 'fmod' not in t, 'R-IDIOM', 'elliptical_angle_transform/uses-floored-modulo', e.loc(), 'the whole-turn offset of the elliptical angle uses the floored modulo')
 
 
+def check_section_algebra(ctx, db):
+    """One generic iteration of each polynomial section builder, folded into vectors over symbolic atoms: the control
+    points handed to append_cubic / append_quad and the state carried to the next iteration are exactly the
+    documented ones (relative operands are offsets from the section's starting end point R; a smooth section starts
+    with the reflection 2L - K of the previous control point K about the current end point L)."""
+    from .. import symdiff as S
+
+    class CA(S.Algebra):
+        def __init__(self, *a):
+            S.Algebra.__init__(self, *a)
+            self.seq = 0
+            self.seen = {}
+
+        def value(self, e, env):
+            e0 = _strip_casts(e)
+            if e0 is not None and e0.k == 'UnaryOperator' and e0.op == '*':
+                sub = _strip_casts(e0.child('sub'))
+                if sub.k == 'UnaryOperator' and sub.op == 'post++' and _strip_casts(sub.child('sub')).k == 'DeclRefExpr' and _strip_casts(sub.child('sub')).n == 'point':
+                    if e0.id not in self.seen:      # one operand per source occurrence, however often it is evaluated
+                        self.seen[e0.id] = self.seq
+                        self.seq += 1
+                    k_ = self.seen[e0.id]
+                    return self.vec(S.atom('Q%d.x' % k_), S.atom('Q%d.y' % k_))
+            if e0 is not None and e0.k == 'CXXOperatorCallExpr' and e0.op == '[]' and len(e0.args) == 2 and _strip_casts(e0.args[0]).k == 'DeclRefExpr':
+                base = _strip_casts(e0.args[0]).n
+                it = norm(e0.args[1].text())
+                m = re.fullmatch(r'\(i \+ (\d+)\)|i', it)
+                if base == 'points' and m:
+                    k_ = int(m.group(1) or 0)
+                    return self.vec(S.atom('P%d.x' % k_), S.atom('P%d.y' % k_))
+                m2 = re.fullmatch(r'\(points\.count - (\d+)\)', it)
+                if base == 'points' and m2:
+                    return self.vec(S.atom('Pend-%s.x' % m2.group(1)), S.atom('Pend-%s.y' % m2.group(1)))
+                if base == 'point_array':
+                    return self.vec(S.atom('E.x'), S.atom('E.y'))
+            return S.Algebra.value(self, e, env)
+
+    def vsum(alg, *vs):
+        out = vs[0]
+        for v in vs[1:]:
+            out = alg.vadd(out, v)
+        return out
+    n = 0
+    # (function, callee, expected control points, expected carried (last_point, last_ctrl) as functions of the atoms)
+    for qn, callee, npts, smooth in (('gdstk::Curve::cubic', 'append_cubic', 3, False), ('gdstk::Curve::cubic_smooth', 'append_cubic', 2, True),
+                                     ('gdstk::Curve::quadratic', 'append_quad', 2, False), ('gdstk::Curve::quadratic_smooth', 'append_quad', 1, True)):
+        fs = [g for g in db.fn(qn, all=True) if 'Array' in g.sig]
+        if len(fs) != 1:
+            raise AnalysisBroken('%s(Array) overload not found' % qn)
+        f = fs[0]
+        ctx.touch(f)
+        rel_if = next((i for i in f.body.c if i is not None and i.k == 'IfStmt' and norm(i.child('cond').text()) == 'relative'), None)
+        if rel_if is None:
+            raise AnalysisBroken('%s: relative/absolute split not found' % qn)
+        for relative, br in ((True, rel_if.child('then')), (False, rel_if.child('else'))):
+            alg = CA(db, None)
+            L, K, R = alg.vec(S.atom('L.x'), S.atom('L.y')), alg.vec(S.atom('K.x'), S.atom('K.y')), alg.vec(S.atom('R.x'), S.atom('R.y'))
+            env = {'last_point': L, 'last_ctrl': K, 'ref': R}
+            loop = next((l for l in br.walk() if l.k == 'ForStmt'), None)
+            if loop is None:
+                raise AnalysisBroken('%s: section loop not found' % qn)
+            calls = []
+            try:
+                for s_ in [x for x in loop.child('body').c if x is not None]:
+                    if s_.k == 'DeclStmt':
+                        for v in s_.c:
+                            if v is not None and v.k == 'VarDecl' and v.child('init') is not None:
+                                env[v.n] = alg.value(v.child('init'), env)
+                    elif is_assign(s_) and s_.op == '=':
+                        l = _strip_casts(s_.args[0] if s_.k == 'CXXOperatorCallExpr' else s_.child('lhs'))
+                        env[l.n] = alg.value(s_.args[1] if s_.k == 'CXXOperatorCallExpr' else s_.child('rhs'), env)
+                    elif s_.k == 'CXXMemberCallExpr' and (s_.callee or '').endswith('::' + callee):
+                        calls.append([alg.value(a, env) for a in s_.args])
+                    else:
+                        raise S.Unsupported('statement %s' % s_.k)
+            except S.Unsupported as e:
+                raise AnalysisBroken('%s is outside the algebra: %s' % (qn, e))
+            base = R if relative else alg.vec(S.P(0), S.P(0))
+            if smooth:
+                ops = [alg.vec(S.atom('Q%d.x' % k), S.atom('Q%d.y' % k)) for k in range(npts)]
+                refl = alg.vadd(alg.vmul(L, S.P(2)), K, -1)
+                want = [L, refl] + [alg.vadd(base, o) for o in ops]
+                want_state = (alg.vadd(base, ops[-1]), alg.vadd(base, ops[0]) if npts == 2 else refl)
+            else:
+                ops = [alg.vec(S.atom('P%d.x' % k), S.atom('P%d.y' % k)) for k in range(npts)]
+                want = [L] + [alg.vadd(base, o) for o in ops]
+                want_state = (alg.vadd(base, ops[-1]), None)
+            n += 1
+            ok = len(calls) == 1 and len(calls[0]) == len(want) and all(alg.equal(a, b) for a, b in zip(calls[0], want))
+            ok_state = alg.equal(env['last_point'], want_state[0]) and (want_state[1] is None or alg.equal(env['last_ctrl'], want_state[1]))
+            ctx.check(ok and ok_state, 'R-ALGEBRA', '%s/%s' % (qn.replace('gdstk::', ''), 'relative' if relative else 'absolute'), loop.loc(),
+                      'the section runs from the current end point through %s%s; the next section starts at its end point%s' % ('the reflected control point and ' if smooth else '', 'the operands offset by the starting end point' if relative else 'the operands', ' with the new control point remembered' if smooth else ''),
+                      'control points handed to %s: %s (expected %s); carried end point %s, control point %s' % (callee, [alg.render(a) for a in (calls[0] if calls else [])], [alg.render(b) for b in want], alg.render(env['last_point']), alg.render(env['last_ctrl'])))
+            if not smooth:
+                # the control point remembered for a following smooth section is the last one of the list, in absolute coordinates
+                st = [x for x in br.walk() if is_assign(x) and norm((x.args[0] if x.k == 'CXXOperatorCallExpr' else x.child('lhs')).text()).endswith('last_ctrl') and not any(a is loop for a in x.ancestors())]
+                okc = len(st) == 1
+                if okc:
+                    v = alg.value(st[0].args[1] if st[0].k == 'CXXOperatorCallExpr' else st[0].child('rhs'), env)
+                    okc = alg.equal(v, alg.vadd(base, alg.vec(S.atom('Pend-2.x'), S.atom('Pend-2.y'))))
+                n += 1
+                ctx.check(okc, 'R-ALGEBRA', '%s/%s/last_ctrl' % (qn.replace('gdstk::', ''), 'relative' if relative else 'absolute'), br.loc(), 'the remembered control point is the second-to-last operand%s' % (' plus the starting end point' if relative else ''))
+    ctx.require('R-ALGEBRA section builders', n, 12)
+
+
 def run(ctx):
     db = ctx.db
     f = db.fn('gdstk::Curve::commands')
@@ -270,6 +375,7 @@ def run(ctx):
     check_clamps(ctx, db)
     check_samplers(ctx, db)
     check_dimensions(ctx, db)
+    check_section_algebra(ctx, db)
     fns = [f for f in db.functions if f.body is not None and f.relfile() in ('src/polygon.cpp', 'src/curve.cpp')]
     n = check_clamp_chains(ctx, fns)
     ctx.require('R-CLAMP.chain clamp statements', n, 20)
@@ -282,7 +388,7 @@ def run(ctx):
 
 
 MANIFEST = dict(
-    text='Decides structural necessary conditions for curve sections: Curve::commands consumes exactly the operands its guard and advance constants state and agrees letter-by-letter with RobustPath::commands; every section method stores last_ctrl on every path (or delegates unconditionally), and on the relative path the stored control point is absolute (dependence closure reaches the current end point / absolute control polygon); every vertex count from arc_num_points that is used as a divisor is dominated by a clamp to >= 2 (or the n == 1 guard); the four adaptive samplers clamp the parameter step so the last vertex is the requested end point; the flatness tests compare squared deviations only with the squared tolerance (powers-of-length analysis: no absolute threshold), angle reduction uses a floored modulo; two bounds of the same direction on one variable (fillet radius vs both adjacent edges) are applied independently, never else-chained. Tolerance and finiteness of sampled vertices are not decided.',
+    text='Decides structural necessary conditions for curve sections: Curve::commands consumes exactly the operands its guard and advance constants state and agrees letter-by-letter with RobustPath::commands; every section method stores last_ctrl on every path (or delegates unconditionally), and on the relative path the stored control point is absolute (dependence closure reaches the current end point / absolute control polygon); every vertex count from arc_num_points that is used as a divisor is dominated by a clamp to >= 2 (or the n == 1 guard); the four adaptive samplers clamp the parameter step so the last vertex is the requested end point; one generic iteration of cubic, cubic_smooth, quadratic and quadratic_smooth, in relative and absolute mode, hands exactly the documented control points to the flattening routine and carries exactly the documented end/control point to the next section (polynomial identities); the flatness tests compare squared deviations only with the squared tolerance (powers-of-length analysis: no absolute threshold), angle reduction uses a floored modulo; two bounds of the same direction on one variable (fillet radius vs both adjacent edges) are applied independently, never else-chained. Tolerance and finiteness of sampled vertices are not decided.',
     note='Trusted: clang front end, gx, sa rules. `parametric` is exempt from the last_ctrl rule (stated reason in the checker).',
     technique='operand-consumption tables + must-write dataflow over the CFG + dependence closure + clamp dominance + clamp-chain discipline',
     design='§4 C15')
